@@ -9,6 +9,29 @@ fn small_logical_ops(rng: &mut Rng, n: usize, st: &mut Stats, comp: Option<Compr
     ops.extend(add_ops(&l, rng, true));
     ops.join(";")
 }
+fn mem_available_gib() -> u64 {
+    std::fs::read_to_string("/proc/meminfo")
+        .ok()
+        .and_then(|m| {
+            m.lines().find(|l| l.starts_with("MemAvailable:")).and_then(|l| l.split_whitespace().nth(1).and_then(|k| k.parse::<u64>().ok()))
+        })
+        .map(|kb| kb >> 20)
+        .unwrap_or(0)
+}
+fn first_id(ops: &str) -> u64 {
+    // the id of the last addition in an op string (most likely still present)
+    ops.split(';')
+        .rev()
+        .find_map(|o| {
+            let f: Vec<&str> = o.split(':').collect();
+            if f.len() == 3 && f[0] == "a" {
+                u64::from_str_radix(f[1], 16).ok()
+            } else {
+                None
+            }
+        })
+        .unwrap_or(0)
+}
 fn spill_ops(rng: &mut Rng, n: usize, comp: Compression) -> String {
     let mut ops = vec![format!("c:{}", comp_tok(comp))];
     let mut id = rng.below(1000);
@@ -391,6 +414,17 @@ pub fn gen(prop: &str, rng: &mut Rng, quick: bool, st: &mut Stats) -> Option<Vec
                     let ops = small_logical_ops(rng, n, st, Some(comp));
                     c.push(format!("chk_torn {mode} {ops}"));
                     c.push(format!("hist {mode} {ops};w:{}:0:-", &mode[..1]));
+                    if n > 0 {
+                        // the archive written is one that was opened from bytes: merely re-saved,
+                        // re-saved after a removal, and re-saved after an addition
+                        let m = &mode[..1];
+                        c.push(format!("chk_torn {mode} {ops};s:{m}:{m}"));
+                        st.bump("torn_resaved");
+                        if n > 1 {
+                            c.push(format!("chk_torn {mode} {ops};s:{m}:{m};r:{:x}", first_id(&ops)));
+                            c.push(format!("chk_torn {mode} {ops};s:{m}:{m};a:{:x}:c0ffee", 77u64 + k as u64));
+                        }
+                    }
                 }
             }
             for (i, comp) in [Compression::None, Compression::GZip].iter().enumerate() {
@@ -405,6 +439,16 @@ pub fn gen(prop: &str, rng: &mut Rng, quick: bool, st: &mut Stats) -> Option<Vec
             }
             let ops = spill_ops(rng, 4300, Compression::None);
             c.push(format!("hist sync {ops};w:s:0:-"));
+            // more than 4 GiB of tile data (about 10 GiB of memory while it runs)
+            if mem_available_gib() >= 24 {
+                c.insert(0, format!("chk_torn_giant {}", if quick { "sync" } else { "async" }));
+                if !quick {
+                    c.push("chk_torn_giant sync".to_string());
+                }
+                st.bump("torn_over_4GiB_of_tile_data");
+            } else {
+                st.bump("torn_over_4GiB_skipped_for_lack_of_memory");
+            }
         }
         "C20" => {
             let mut arch = sample_archives(rng, quick, st);
@@ -840,6 +884,7 @@ pub fn run_chk(toks: &[&str]) -> Option<String> {
             guard_chk(|| chk_startpos(mode, p, &pre, ops))
         }
         ["chk_torn", mode, ops] => guard_chk(|| chk_torn(mode, ops)),
+        ["chk_torn_giant", mode] => guard_chk(|| chk_torn_giant(mode)),
         ["chk_lazy", mode, rg, b] => {
             let (rg, b) = (parse_range(rg), unhex_bytes(b));
             guard_chk(|| chk_lazy(mode, rg, &b))
